@@ -13,6 +13,7 @@ use std::time::Duration;
 
 pub fn swarm() -> Swarm {
     Swarm {
+        alloc_modes: true,
         io: true,
         stalls: true,
         stall_max_ns: 3_000_000,
@@ -456,20 +457,40 @@ pub fn run_timeout(seed: u64, mut ov: impl FnMut(&mut engine::Cfg)) -> ! {
     engine::finish_ok()
 }
 
+/// Known finding F23 (see known_findings.json): `timeout_handler` drops the operation's timer
+/// handle and then takes `EventData.co`. If the selector thread is held up between the two while
+/// the operation ends otherwise and a later operation on the same socket is published, the stale
+/// handler takes that later operation's coroutine and fails it with TimedOut. Recognised exactly:
+/// an early TimedOut AND a stall was injected at a schedule point in front of an
+/// `AtomicOption::take` in io/sys/unix/mod.rs (the handler's `co.take()`), it began before the
+/// failed operation's end and lasted until after that operation had started.
+fn stale_handler_note(t0: u64, t1: u64) -> String {
+    for st in engine::stall_log() {
+        if st.file.ends_with("io/sys/unix/mod.rs") && st.op == "opt.take" && st.vt <= t1 && st.vt + st.dur >= t0 {
+            return format!(
+                " [stale timeout handler: the selector was stalled {} ns at {}:{} between dropping an operation's timer handle and taking the coroutine; the operation ended otherwise and this later one was hit]",
+                st.dur, st.file, st.line
+            );
+        }
+    }
+    String::new()
+}
+
 fn check_result(k: usize, op: &Op, t0: u64, t1: u64, r: Result<usize, std::io::ErrorKind>, quiet: bool, what: &str) {
     match r {
         Err(std::io::ErrorKind::TimedOut) => {
             let d = match op.timeout {
                 Some(d) => d,
-                None => violation(&format!("op{}: {} with no timeout failed with TimedOut (stale timer of an earlier operation)", k, what)),
+                None => violation(&format!("op{}: {} with no timeout failed with TimedOut (stale timer of an earlier operation){}", k, what, stale_handler_note(t0, t1))),
             };
             if t1 < t0 + d {
                 violation(&format!(
-                    "op{}: {} with timeout {} ns failed with TimedOut after only {} ns (early, or the stale timer of an earlier operation)",
+                    "op{}: {} with timeout {} ns failed with TimedOut after only {} ns (early, or the stale timer of an earlier operation){}",
                     k,
                     what,
                     d,
-                    t1 - t0
+                    t1 - t0,
+                    stale_handler_note(t0, t1)
                 ));
             }
             // data that was delivered well before the deadline must be returned, not a timeout
@@ -816,11 +837,12 @@ pub fn run_cancel(seed: u64, mut ov: impl FnMut(&mut engine::Cfg)) -> ! {
                         g2.fetch_add(n as u64, Ordering::Relaxed);
                     }
                     Err(e) if e.kind() == std::io::ErrorKind::TimedOut => match heir_timeout {
-                        None => violation("heir: read with no timeout failed with TimedOut (timer of the cancelled operation still armed)"),
+                        None => violation(&format!("heir: read with no timeout failed with TimedOut (timer of the cancelled operation still armed){}", stale_handler_note(t0, t1))),
                         Some(d) if t1 < t0 + d => violation(&format!(
-                            "heir: read with timeout {} ns failed with TimedOut after only {} ns (timer of the cancelled operation still armed)",
+                            "heir: read with timeout {} ns failed with TimedOut after only {} ns (timer of the cancelled operation still armed){}",
                             d,
-                            t1 - t0
+                            t1 - t0,
+                            stale_handler_note(t0, t1)
                         )),
                         Some(_) => violation("heir: read timed out although the peer sent the data 3 ms after it started"),
                     },
